@@ -380,3 +380,13 @@ package container
 //@ method (Factory).GetDefinitionRegistry
 //@ assigns nothing
 //@ ensures [registry-present] result != nil
+
+// GetMetaOrRegister returns the definition registered under the name, creating and registering it first if there is
+// none (interface level; the built-in registry's implementation goes through sync2.Map.LoadOrStoreFn and NewMeta).
+//@ method (DefinitionRegistry).GetMetaOrRegister
+//@ property C11
+//@ assigns self.DefDom, self.Def, RTop
+//@ ensures [registered] result != nil && self.DefDom[name] && self.Def[name] == result && implies(old(self.DefDom[name]), result == old(self.Def[name]))
+//@ ensures [others-kept] forall(n, string, implies(n != name, self.DefDom[n] == old(self.DefDom[n]) && self.Def[n] == old(self.Def[n])))
+//@ ensures [scanned] FieldsInv(result) && result.propertyGroup != nil && (result == old(self.Def[name]) || (fresh(result) && fresh(result.propertyGroup)))
+//@ ensures [rtop-monotone] RTop >= old(RTop)
